@@ -289,6 +289,41 @@ Fixpoint veq (a b : value) {struct a} : option bool :=
   | _, _ => None
   end.
 
+(* shape of a comparison of struct values: blank (_) fields do not take part in == *)
+Inductive cshape := CAny | CFields (fs : list (option cshape)) | CElems (e : cshape).
+
+(* == on values of a struct type with blank fields (None = blank field, ignored) *)
+Fixpoint veq_shape (s : cshape) (a b : value) {struct s} : option bool :=
+  match s, a, b with
+  | CAny, _, _ => veq a b
+  | CFields fs, VAgg xs, VAgg ys =>
+    (fix go (fs : list (option cshape)) (xs ys : list value) {struct fs} : option bool :=
+       match fs, xs, ys with
+       | [], [], [] => Some true
+       | None :: r, _ :: xr, _ :: yr => go r xr yr
+       | Some f :: r, x :: xr, y :: yr =>
+         match veq_shape f x y with
+         | Some true => go r xr yr
+         | Some false => match go r xr yr with Some _ => Some false | None => None end
+         | None => None
+         end
+       | _, _, _ => None
+       end) fs xs ys
+  | CElems e, VAgg xs, VAgg ys =>
+    (fix go (xs ys : list value) {struct xs} : option bool :=
+       match xs, ys with
+       | [], [] => Some true
+       | x :: xr, y :: yr =>
+         match veq_shape e x y with
+         | Some true => go xr yr
+         | Some false => match go xr yr with Some _ => Some false | None => None end
+         | None => None
+         end
+       | _, _ => None
+       end) xs ys
+  | _, _, _ => None
+  end.
+
 (* ------------------------------------------------------------------ program syntax *)
 
 Inductive operand :=
@@ -300,7 +335,7 @@ Inductive operand :=
 Inductive binop := Add | Sub | Mul | Quo | Rem | BAnd | BOr | BXor | Shl | Shr | AndNot
                  | Eql | Neq | Lss | Leq | Gtr | Geq.
 Inductive unop := UNot | UNeg | UCompl.
-Inductive okind := KInt (k : ikind) | KBool | KStr | KOther.
+Inductive okind := KInt (k : ikind) | KBool | KStr | KOther | KShape (s : cshape).
 Inductive ckind := CInt (k : ikind) | CStr | CBytes | CRunes | COther.
 Inductive seqkind := SqString | SqSlice | SqArrayPtr (n : N) | SqArray (n : N) | SqMap.
 Inductive builtin := BLen (k : seqkind) | BCap (k : seqkind) | BAppend (zero : value) (fromstr : bool)
@@ -439,6 +474,12 @@ Definition sem_bin (op : binop) (k yk : okind) (a b : value) (h : heap) : ores :
     | Eql => match veq a b with Some r => ROk (VBool r) h | None => RPanic pk_uncomparable end
     | Neq => match veq a b with Some r => ROk (VBool (negb r)) h | None => RPanic pk_uncomparable end
     | _ => et 4
+    end
+  | KShape s, _, _ =>
+    match op with
+    | Eql => match veq_shape s a b with Some r => ROk (VBool r) h | None => RPanic pk_uncomparable end
+    | Neq => match veq_shape s a b with Some r => ROk (VBool (negb r)) h | None => RPanic pk_uncomparable end
+    | _ => et 32
     end
   | _, _, _ => et 5
   end.
@@ -615,6 +656,15 @@ Definition sem_slice (k : seqkind) (haslo hashi hasmax : bool) (vs : list value)
   | [] => et 19
   end.
 
+(* can the value be a map key: slices, maps and funcs (inside interfaces or aggregates) cannot *)
+Fixpoint hashable (v : value) : bool :=
+  match v with
+  | VSlice _ _ _ _ | VClos _ _ | VNilFunc | VMap _ => false
+  | VAgg vs => forallb hashable vs
+  | VIface (Some (_, x)) => hashable x
+  | _ => true
+  end.
+
 Fixpoint map_find (kv : list (value * value)) (k : value) : option value :=
   match kv with
   | [] => None
@@ -683,6 +733,7 @@ Definition sem_builtin (b : builtin) (vs : list value) (h : heap) : ores :=
     match ints_of r with Some zs => ROk (VInt (fold_left Z.max zs x)) h | None => et 24 end
   | BDelete, [VMap None; _] => ROk unit_val h
   | BDelete, [VMap (Some m); k] =>
+    if negb (hashable k) then RPanic pk_uncomparable else
     match PM.find m (maps h) with
     | Some kv => ROk unit_val (set_map h m (map_del kv k))
     | None => RErr (SInternal 10)
@@ -784,6 +835,7 @@ Definition sem_op (op : opcode) (vs : list value) (h : heap) : ores :=
   | OpNext isstr, [it] => sem_next isstr it h
   | OpMakeMap, _ => let '(c, h') := alloc_map h [] in ROk (VMap (Some c)) h'
   | OpMapLookup ok zero, [VMap mo; k] =>
+    if negb (hashable k) then RPanic pk_uncomparable else
     let kv := match mo with Some m => match PM.find m (maps h) with Some kv => kv | None => [] end | None => [] end in
     match map_find kv k with
     | Some v => ROk (if ok then VAgg [v; VBool true] else v) h
@@ -791,6 +843,7 @@ Definition sem_op (op : opcode) (vs : list value) (h : heap) : ores :=
     end
   | OpMapUpdate, [VMap None; _; _] => RPanic pk_nilmap
   | OpMapUpdate, [VMap (Some m); k; v] =>
+    if negb (hashable k) then RPanic pk_uncomparable else
     match PM.find m (maps h) with
     | Some kv => ROk unit_val (set_map h m (map_set kv k v))
     | None => RErr (SInternal 19)
